@@ -3,11 +3,13 @@ import TLVerif.Codec.Ops.TL2
 import TLVerif.Codec.Ops.Json
 import TLVerif.Codec.Ops.Misc
 import TLVerif.Codec.Ops.HandShape
+import TLVerif.Codec.Ops.Rand
+import TLVerif.Codec.Ops.Access
 /-! Line-protocol handler of the `codec` family. Stateful: `codec.desc` lines register descriptors;
 every other op is answered by the first per-aspect handler (Ops/*.lean) that recognises it. -/
 namespace TLVerif.Codec
 
-def opHandlers : List OpHandler := [handleTL1, handleTL2, handleJson, handleMisc, handleHandShape]
+def opHandlers : List OpHandler := [handleTL1, handleTL2, handleJson, handleMisc, handleHandShape, handleRand, handleAccess]
 
 def firstSome (st : DState) (op : String) (args : List String) : List OpHandler → String
   | [] => "bad-op"
@@ -21,6 +23,10 @@ def handleS (st : DState) (op : String) (args : List String) : DState × String 
     match parseDesc toks with
     | some d => ((sid, { cfg := { sanity := sanity == "1" }, desc := d }) :: st, s!"ok {d.insts.size}")
     | none => (st, "bad-desc")
+  | "ext", sid :: key :: toks =>
+    match st.lookup sid with
+    | some sc => ((sid, { sc with ext := (key, toks) :: sc.ext }) :: st, "ok")
+    | none => (st, "bad-op")
   | _, _ => (st, firstSome st op args opHandlers)
 
 end TLVerif.Codec
